@@ -354,6 +354,8 @@ class Interp:
             lv = self.e_List(e, env, fr)
             return lv
         vals = tuple(self.eval(x, env, fr) for x in e.elts)
+        if any(isinstance(v, _Bot) for v in vals):
+            return BOT  # an element that cannot be evaluated: this path does not exist
         if all(isinstance(v, Const) for v in vals):
             return Const(tuple(v.value for v in vals))
         return TupleV(vals)
@@ -486,6 +488,10 @@ class Interp:
             lb = self.as_list(b)
             if la is not None and lb is not None:
                 return ListV(join(la.elem, lb.elem), la.nonempty or lb.nonempty)
+            if isinstance(a, Const) and isinstance(a.value, tuple) and isinstance(b, TupleV):
+                a = TupleV(tuple(Const(x) for x in a.value))
+            if isinstance(b, Const) and isinstance(b.value, tuple) and isinstance(a, TupleV):
+                b = TupleV(tuple(Const(x) for x in b.value))
             if isinstance(a, TupleV) and isinstance(b, TupleV):
                 return TupleV(a.elems + b.elems)
             if self.is_str(a) and self.is_str(b):
